@@ -125,6 +125,140 @@ theorem response_writer :
        cases r.contentLength <;> cases r.body <;> cases r.deprecation <;> cases r.acceptEncoding <;>
          simp [Header.raw])
 
+
+/-! ### C04 — the texts that reach a client inside a 400 body (tools/extract.py: `display_templates`)
+
+`Extracted.displayRequestError` / `displayHeaderError` are the `write!(f, "…{}…", args)` arms of the two `Display`
+impls of common/mod.rs, one template per variant: literal pieces and holes, a hole being the index of the binding
+printed there (so swapping `size` and `limit` is a different template). The `&'static str` arguments of
+`InvalidHttpMethod` / `InvalidHttpVersion` / `InvalidUri` are collected from their construction sites, and the
+`format!` of server.rs that wraps the text gives prefix and suffix of the 400 body. The theorems say that the
+model's `ReqErr.display` / `HeaderErr.display` / `badRequestBody` are exactly the instances of those templates, for
+EVERY error value. (`Utf8Error`'s own `Display` is core Rust: modelled, tied by the correspondence only.) -/
+
+/-- fill the holes of a template -/
+def inst (t : List (List UInt8 ⊕ Nat)) (args : List (List UInt8)) : List UInt8 :=
+  t.flatMap fun p => match p with | .inl b => b | .inr i => args.getD i []
+
+/-- 'Unsupported HTTP method.' -/
+def T_METHOD : List UInt8 := [0x55, 0x6E, 0x73, 0x75, 0x70, 0x70, 0x6F, 0x72, 0x74, 0x65, 0x64, 0x20, 0x48, 0x54, 0x54, 0x50, 0x20, 0x6D, 0x65, 0x74, 0x68, 0x6F, 0x64, 0x2E]
+/-- 'Unsupported HTTP version.' -/
+def T_VERSION : List UInt8 := [0x55, 0x6E, 0x73, 0x75, 0x70, 0x70, 0x6F, 0x72, 0x74, 0x65, 0x64, 0x20, 0x48, 0x54, 0x54, 0x50, 0x20, 0x76, 0x65, 0x72, 0x73, 0x69, 0x6F, 0x6E, 0x2E]
+/-- 'Empty URI not allowed.' -/
+def T_URI_EMPTY : List UInt8 := [0x45, 0x6D, 0x70, 0x74, 0x79, 0x20, 0x55, 0x52, 0x49, 0x20, 0x6E, 0x6F, 0x74, 0x20, 0x61, 0x6C, 0x6C, 0x6F, 0x77, 0x65, 0x64, 0x2E]
+/-- 'Cannot parse URI as UTF-8.' -/
+def T_URI_UTF8 : List UInt8 := [0x43, 0x61, 0x6E, 0x6E, 0x6F, 0x74, 0x20, 0x70, 0x61, 0x72, 0x73, 0x65, 0x20, 0x55, 0x52, 0x49, 0x20, 0x61, 0x73, 0x20, 0x55, 0x54, 0x46, 0x2D, 0x38, 0x2E]
+/-- 'Invalid HTTP Method: ' -/
+def T_METHOD_PRE : List UInt8 := [0x49, 0x6E, 0x76, 0x61, 0x6C, 0x69, 0x64, 0x20, 0x48, 0x54, 0x54, 0x50, 0x20, 0x4D, 0x65, 0x74, 0x68, 0x6F, 0x64, 0x3A, 0x20]
+/-- 'Invalid HTTP Version: ' -/
+def T_VERSION_PRE : List UInt8 := [0x49, 0x6E, 0x76, 0x61, 0x6C, 0x69, 0x64, 0x20, 0x48, 0x54, 0x54, 0x50, 0x20, 0x56, 0x65, 0x72, 0x73, 0x69, 0x6F, 0x6E, 0x3A, 0x20]
+/-- 'Invalid URI: ' -/
+def T_URI_PRE : List UInt8 := [0x49, 0x6E, 0x76, 0x61, 0x6C, 0x69, 0x64, 0x20, 0x55, 0x52, 0x49, 0x3A, 0x20]
+/-- 'Unsupported feature. Key: ' (a variant the library never constructs; its arm exists) -/
+def T_H_FEATURE_1 : List UInt8 := [0x55, 0x6E, 0x73, 0x75, 0x70, 0x70, 0x6F, 0x72, 0x74, 0x65, 0x64, 0x20, 0x66, 0x65, 0x61, 0x74, 0x75, 0x72, 0x65, 0x2E, 0x20, 0x4B, 0x65, 0x79, 0x3A, 0x20]
+/-- '; Value: ' -/
+def T_H_FEATURE_2 : List UInt8 := [0x3B, 0x20, 0x56, 0x61, 0x6C, 0x75, 0x65, 0x3A, 0x20]
+
+def reqErrName : ReqErr → String
+  | .bodyWithoutPendingRequest => "BodyWithoutPendingRequest" | .headerError _ => "HeaderError"
+  | .headersWithoutPendingRequest => "HeadersWithoutPendingRequest" | .invalidHttpMethod => "InvalidHttpMethod"
+  | .invalidHttpVersion => "InvalidHttpVersion" | .invalidRequest => "InvalidRequest" | .invalidUri _ => "InvalidUri"
+  | .overflow => "Overflow" | .underflow => "Underflow" | .sizeLimitExceeded _ _ => "SizeLimitExceeded"
+
+/-- the values bound by the variant's pattern, as the texts `{}` prints for them, in binding order -/
+def reqErrArgs : ReqErr → List (List UInt8)
+  | .headerError e => [e.display]
+  | .invalidHttpMethod => [T_METHOD]
+  | .invalidHttpVersion => [T_VERSION]
+  | .invalidUri .empty => [T_URI_EMPTY]
+  | .invalidUri .notUtf8 => [T_URI_UTF8]
+  | .sizeLimitExceeded limit size => [decimal limit, decimal size]
+  | _ => []
+
+/-- the templates of `impl Display for RequestError`, written with the model's constants, in source order -/
+def reqErrTemplates : List (String × List (List UInt8 ⊕ Nat)) :=
+  [("BodyWithoutPendingRequest", [.inl D_BODY_WO]),
+   ("HeaderError", [.inl D_HDR_PRE, .inr 0]),
+   ("HeadersWithoutPendingRequest", [.inl D_HDRS_WO]),
+   ("InvalidHttpMethod", [.inl T_METHOD_PRE, .inr 0]),
+   ("InvalidHttpVersion", [.inl T_VERSION_PRE, .inr 0]),
+   ("InvalidRequest", [.inl D_INVALID]),
+   ("InvalidUri", [.inl T_URI_PRE, .inr 0]),
+   ("Overflow", [.inl D_OVERFLOW]),
+   ("Underflow", [.inl D_UNDERFLOW]),
+   ("SizeLimitExceeded", [.inl D_SIZE_1, .inr 1, .inl D_SIZE_2, .inr 0, .inl D_SIZE_3])]
+
+def hdrErrName : HeaderErr → String
+  | .invalidFormat _ => "InvalidFormat" | .invalidUtf8 _ => "InvalidUtf8String" | .invalidValue _ _ => "InvalidValue"
+  | .sizeLimitExceeded _ => "SizeLimitExceeded" | .unsupportedName _ => "UnsupportedName"
+  | .unsupportedValue _ _ => "UnsupportedValue"
+
+def hdrErrArgs : HeaderErr → List (List UInt8)
+  | .invalidFormat k => [k] | .invalidUtf8 e => [e.display] | .invalidValue k v => [k, v]
+  | .sizeLimitExceeded s => [s] | .unsupportedName k => [k] | .unsupportedValue k v => [k, v]
+
+def hdrErrTemplates : List (String × List (List UInt8 ⊕ Nat)) :=
+  [("InvalidFormat", [.inl D_H_FORMAT, .inr 0]),
+   ("InvalidUtf8String", [.inl D_H_UTF8, .inr 0]),
+   ("InvalidValue", [.inl D_H_VALUE_1, .inr 0, .inl D_H_VALUE_2, .inr 1]),
+   ("SizeLimitExceeded", [.inl D_H_SIZE, .inr 0]),
+   ("UnsupportedFeature", [.inl T_H_FEATURE_1, .inr 0, .inl T_H_FEATURE_2, .inr 1]),
+   ("UnsupportedName", [.inl D_H_UNAME, .inr 0]),
+   ("UnsupportedValue", [.inl D_H_UVALUE_1, .inr 0, .inl D_H_VALUE_2, .inr 1])]
+
+theorem display_request_error_templates : Agrees Extracted.displayRequestError reqErrTemplates := by decide
+theorem display_header_error_templates : Agrees Extracted.displayHeaderError hdrErrTemplates := by decide
+theorem invalid_method_texts : Agrees Extracted.invalidMethodTexts [T_METHOD] := by decide
+theorem invalid_version_texts : Agrees Extracted.invalidVersionTexts [T_VERSION] := by decide
+theorem invalid_uri_texts : Agrees Extracted.invalidUriTexts [T_URI_EMPTY, T_URI_UTF8] := by decide
+theorem bad_request_prefix : Agrees Extracted.BAD_REQUEST_PREFIX D_400_PRE := by decide
+theorem bad_request_suffix : Agrees Extracted.BAD_REQUEST_SUFFIX D_400_POST := by decide
+
+/-- the model's `Display` of a header error is the instance of that variant's template, for every error value -/
+theorem header_error_display (e : HeaderErr) :
+    (hdrErrTemplates.lookup (hdrErrName e)).map (inst · (hdrErrArgs e)) = some e.display := by
+  cases e <;> simp [hdrErrTemplates, hdrErrName, List.lookup, HeaderErr.display, inst, hdrErrArgs]
+
+/-- the model's `Display` of a request error is the instance of that variant's template, for every error value -/
+theorem request_error_display (e : ReqErr) :
+    (reqErrTemplates.lookup (reqErrName e)).map (inst · (reqErrArgs e)) = some e.display := by
+  cases e with
+  | invalidUri k => cases k <;> decide
+  | headerError h => simp [reqErrTemplates, reqErrName, List.lookup, ReqErr.display, inst, reqErrArgs]
+  | sizeLimitExceeded l n => simp [reqErrTemplates, reqErrName, List.lookup, ReqErr.display, inst, reqErrArgs]
+  | _ => decide
+
+/-- the 400 body: prefix, the error's text, suffix -/
+theorem bad_request_body (e : ReqErr) : badRequestBody e = D_400_PRE ++ e.display ++ D_400_POST := rfl
+
+
+/-! ### C07 / C06 — the predicates that decide removal and pending output (tools/extract.py: `translate_pred`)
+
+`ClientConnection::is_done` and `HttpConnection::pending_write` are one boolean expression each; the translator
+turns the expression into a Lean function over the model's state, and the theorems say it is the model's
+predicate on EVERY state — so C07's "removed only when closed, nothing unsent, nothing in flight" and C06's
+"pending output reported exactly while something is unsent" are about the expressions the source contains now. -/
+
+theorem is_done_pred :
+    Extracted.isDone = none ∨ ∃ f, Extracted.isDone = some f ∧ ∀ c : Client, f c = c.isDone := by
+  first
+    | exact Or.inl rfl
+    | (right
+       refine ⟨_, rfl, ?_⟩
+       intro c
+       unfold Client.isDone
+       cases c.state <;> cases pendingWrite c.conn <;> cases h : c.inflight <;> simp)
+
+theorem pending_write_pred :
+    Extracted.pendingWrite = none ∨ ∃ f, Extracted.pendingWrite = some f ∧ ∀ c : Conn0, f c = pendingWrite c := by
+  first
+    | exact Or.inl rfl
+    | (right
+       refine ⟨_, rfl, ?_⟩
+       intro c
+       unfold MicroHttp.pendingWrite
+       cases c.respBuf <;> cases c.respQ <;> simp)
+
 /-! Non-vacuity is reported per run: `check` records which items the translator found (`extracted` in the evidence);
     on the unchanged tree all of them are. -/
 
